@@ -1,14 +1,21 @@
 (* line protocol (oracle/c13): one scenario per line
      <id> <ndev> <seed> <step> ...
    steps (device index d = one digit): dR<v> ROAccessReport variant v, dE<v> ReaderEventNotification
-   variant v (v=4: a successful ConnectionAttemptEvent in mid-stream), dr<v>/de<v> undecodable
+   variant v (v mod 14 = 4 or 11: a successful ConnectionAttemptEvent in mid-stream), dr<v>/de<v> undecodable
    report/event, dM/dL a large report under/over the 640 KiB buffer limit (over: refused like an undecodable one), dK keep-alive, dC<k> command through the driver.
    Every device first receives the connection event of each of its connections (d+<modes> steps: failing
    connections before the normal one; content 2000+100d+n). dT<k>: a request with a deadline (a Command). d@<p><kind><v>: message sent during connection
    set-up (phase p). dU0/dU1: EdgeX updates the device (same / other address: reconnect, a new connection
    event). dX: outage, reconnect. dZ: the device is removed, its later steps are void. The content of step i is i.
-   The model is run on these Recv events with publisher completions interleaved at random (seeded),
-   then drained. answer: "<n> d:RO:i d:REN:i ..." (sorted) "| pending=<n> expected_ok=<0|1>" *)
+   d~<flags>: d the device is registered DOWN when the service starts (its operating-state flag starts
+   false), f the SDK's UpdateDeviceOperatingState(Up) fails, g the one with Down fails (other flags concern the
+   reader / the timing of the SDK only). dH: the held SDK calls return (a Command here: SDK returns are
+   interleaved at random anyway). dY: an outage with refused connections: the device is marked DOWN, then
+   reconnects. dQ<e><c><kind><v>: a message is begun and its connection ends after a part (RecvCut; the part
+   is given as decodable when c = 2), then the device reconnects.
+   The model (Driver/Publish.v, extracted) is run on these events with the decoder "payload [i; ok; conn] decodes
+   iff ok = 1, to 2i+conn", publisher progress (OnConnectStart / SdkReturn / PublisherRun) interleaved at random
+   (seeded), then drained. answer: "<n> d:RO:i d:REN:i ..." (sorted) "| pending=<n> expected_ok=<0|1> sdk_up=<n>" *)
 open Model
 
 let rec pos_of_int (n:int) : positive =
@@ -19,15 +26,36 @@ let int_of_n = function N0 -> 0 | Npos p -> int_of_pos p
 let rec nat_of_int n = if n <= 0 then O else S (nat_of_int (n - 1))
 let rec int_of_nat = function O -> 0 | S n -> 1 + int_of_nat n
 
+(* the decoder of the abstract payloads *)
+let dec (_ : mtype) (bs : n list) : n option =
+  match bs with
+  | [i; ok; conn] when int_of_n ok = 1 -> Some (n_of_int (2 * int_of_n i + int_of_n conn))
+  | _ -> None
+let is_conn (c : n) : bool = int_of_n c land 1 = 1
+let payload i ok conn = [n_of_int i; n_of_int (if ok then 1 else 0); n_of_int (if conn then 1 else 0)]
+
+let step = step dec is_conn
+let run = run dec is_conn
+let expected = expected dec
+
 let reading_s ((d, r), c) =
-  Printf.sprintf "%d:%s:%d" (int_of_n d) (match r with ResROAccessReport -> "RO" | ResReaderEventNotification -> "REN") (int_of_n c)
+  Printf.sprintf "%d:%s:%d" (int_of_n d) (match r with ResROAccessReport -> "RO" | ResReaderEventNotification -> "REN") (int_of_n c / 2)
+
+let flags_of steps d =
+  List.fold_left (fun acc st ->
+      if String.length st > 2 && st.[1] = '~' && Char.code st.[0] - 48 = d
+      then acc ^ String.sub st 2 (String.length st - 2) else acc) "" steps
 
 let scenario toks =
   match toks with
   | _id :: ndev :: seed :: steps ->
     let ndev = int_of_string ndev in
     Random.init (int_of_string seed);
+    let clock = ref 0 in
+    let now () = incr clock; n_of_int (1000 + 7 * !clock) in
     let recvs = ref [] in
+    let flags = Array.init 10 (fun d -> flags_of steps d) in
+    let up0 d = not (String.contains flags.(int_of_n d) 'd') in
     (* connection events: one per planned connection (d+<modes>: one failing connection per
        character, then the normal one), content 2000+100d+n *)
     for d = 0 to ndev - 1 do
@@ -40,7 +68,7 @@ let scenario toks =
         let m = if n < String.length modes then modes.[n] else ' ' in
         let typ = if m = 'o' then MROAccessReport else MReaderEventNotification in
         let success = not (String.contains "1234no" m) in
-        recvs := Recv (n_of_int d, typ, Some (n_of_int (2000 + 100 * d + n)), success) :: !recvs
+        recvs := Recv (n_of_int d, typ, payload (2000 + 100 * d + n) true success, now ()) :: !recvs
       done
     done;
     let nconn = Array.make 10 0 in
@@ -56,44 +84,61 @@ let scenario toks =
         let d = n_of_int di in
         (* d@<phase><kind><variant>: the same message, sent while the connection is being set up *)
         let kind, vs = if st.[1] = '@' then st.[3], String.sub st 4 (String.length st - 4)
+          else if st.[1] = 'Q' then 'Q', String.sub st 5 (String.length st - 5)
           else st.[1], String.sub st 2 (String.length st - 2) in
         let v = (try int_of_string vs with _ -> 0) in
         let newconn () =
           let n = nconn.(di) in nconn.(di) <- n + 1;
-          Recv (d, MReaderEventNotification, Some (n_of_int (2000 + 100 * di + n)), true) in
+          Recv (d, MReaderEventNotification, payload (2000 + 100 * di + n) true true, now ()) in
         if not removed.(di) then begin
-          let e = match kind with
-            | 'R' | 'M' -> Recv (d, MROAccessReport, Some (n_of_int i), false)
-            | 'E' -> Recv (d, MReaderEventNotification, Some (n_of_int i), v = 4)
-            | 'L' | 'r' -> Recv (d, MROAccessReport, None, false)
-            | 'e' -> Recv (d, MReaderEventNotification, None, false)
-            | 'K' -> KeepAliveAck d
-            | 'C' | 'T' | 'G' | 'P' -> Command d
-            | 'F' -> KeepAliveAck d                                     (* receive side stalled, keep-alives *)
-            | 'U' -> if v mod 2 = 1 then newconn () else Command d   (* moved to its other address: reconnects *)
-            | 'X' -> newconn ()                                      (* outage: reconnects *)
-            | 'Z' -> removed.(di) <- true; Command d                 (* removed: nothing more from it *)
-            | '+' -> KeepAliveAck d   (* handled above *)
+          let es = match kind with
+            | 'R' | 'M' -> [Recv (d, MROAccessReport, payload i true false, now ())]
+            | 'E' -> [Recv (d, MReaderEventNotification, payload i true (v mod 14 = 4 || v mod 14 = 11), now ())]
+            | 'L' | 'r' -> [Recv (d, MROAccessReport, payload i false false, now ())]
+            | 'e' -> [Recv (d, MReaderEventNotification, payload i false false, now ())]
+            | 'K' -> [KeepAliveAck d]
+            | 'C' | 'T' | 'G' | 'P' | 'H' -> [Command d]
+            | 'F' -> [KeepAliveAck d]                                     (* receive side stalled, keep-alives *)
+            | 'U' -> if v mod 2 = 1 then [newconn ()] else [Command d]   (* moved to its other address: reconnects *)
+            | 'X' -> [newconn ()]                                      (* outage: reconnects *)
+            | 'Y' -> [MarkDown (d, not (String.contains flags.(di) 'g')); newconn ()]
+            | 'Q' ->
+              let typ = if st.[4] = 'R' then MROAccessReport else MReaderEventNotification in
+              [RecvCut (d, typ, payload i (st.[3] = '2') false, nat_of_int (1 + v), now ()); newconn ()]
+            | 'Z' -> removed.(di) <- true; [Command d]                 (* removed: nothing more from it *)
+            | '+' | '~' -> []   (* handled above *)
             | _ -> failwith ("bad step " ^ st) in
-          recvs := e :: !recvs
+          recvs := List.rev_append es !recvs
         end) steps;
     let recvs = List.rev !recvs in
-    (* interleave publisher completions *)
-    let s = ref init in
+    (* interleave the progress of publishers: entering onConnect, SDK calls returning (with the
+       outcome scripted for the device), channel sends *)
+    let s = ref (init_up up0) in
     let evs = ref [] in
+    let sdk_ok x = let ((d, _), _) = x in not (String.contains flags.(int_of_n d) 'f') in
+    let progress () =
+      let st = List.length (starting !s) and pk = List.length (parked !s) and pd = List.length (pending !s) in
+      if st + pk + pd > 0 then begin
+        let k = Random.int (st + pk + pd) in
+        let e =
+          if k < st then OnConnectStart (nat_of_int k)
+          else if k < st + pk then SdkReturn (nat_of_int (k - st), sdk_ok (List.nth (parked !s) (k - st)))
+          else PublisherRun (nat_of_int (k - st - pk)) in
+        s := step !s e; evs := e :: !evs
+      end in
     List.iter (fun e ->
         s := step !s e; evs := e :: !evs;
-        while Random.int 3 = 0 && pending !s <> [] do
-          let k = Random.int (List.length (pending !s)) in
-          let e = PublisherRun (nat_of_int k) in
-          s := step !s e; evs := e :: !evs
-        done) recvs;
-    let dr = drain !s in
+        while Random.int 3 = 0 && inflight !s <> [] do progress () done) recvs;
+    let sdk_up_before = int_of_nat (sdk_up_calls !s) in
+    let dr = drain (Random.bool ()) !s in
     let s2 = run !s dr in
     let pub = List.sort compare (List.map reading_s (published s2)) in
     let exp = List.sort compare (List.map reading_s (expected (List.rev !evs))) in
-    Printf.printf "%d %s | pending=%d expected_ok=%s\n" (List.length pub) (String.concat " " pub)
-      (List.length (pending s2)) (if pub = exp then "1" else "0")
+    (* the same messages received at other times give the same run *)
+    let s3 = run (init_up up0) (List.map (retime (fun _ -> N0)) (List.rev_append !evs dr)) in
+    let same = List.map reading_s (published s3) = List.map reading_s (published s2) in
+    Printf.printf "%d %s | pending=%d expected_ok=%s sdk_up=%d\n" (List.length pub) (String.concat " " pub)
+      (List.length (inflight s2)) (if pub = exp && same then "1" else "0") sdk_up_before
   | _ -> print_endline "error: bad scenario"
 
 let () =
